@@ -1,17 +1,9 @@
-(* C13 - P_xcfg and P_pdb raise only the documented errors, for every list of lines. *)
+(* C13 - P_xcfg raises only the documented errors, for every list of lines. *)
 From Coq Require Import List Bool Arith ZArith Lia.
-From DS Require Import Base.C13_Exn Gen.C13_ExcSpec Model.C13_Common Model.C13_Xcfg Model.C13_Pdb
-                       Proofs.C13_ExnLemmas Proofs.C13_Xyz Proofs.C13_Pdffit.
+From DS Require Import Base.C13_Exn Gen.C13_ExcSpec Model.C13_Common Model.C13_Xcfg
+                       Proofs.C13_ExnLemmas Proofs.C13_Shared.
 From Coq Require Import Ascii String.
 Import ListNotations.
-
-(* take apart a hypothesis  <monadic term> = Ok _ *)
-Ltac inv_ok H :=
-  repeat match type of H with
-  | bind ?m _ = Ok _ => let E := fresh "E" in destruct m eqn:E; cbn [bind] in H; [| discriminate H]
-  | (if ?b then _ else _) = Ok _ => let E := fresh "E" in destruct b eqn:E; try discriminate H
-  | match ?x with _ => _ end = Ok _ => let E := fresh "E" in destruct x eqn:E; try discriminate H
-  end.
 
 Section XCFG_proofs.
   Variable V : Type.
